@@ -422,6 +422,9 @@ def run_case(case, res, limit, light=False):
           ISD.from_model(doc, t, sig)
       except Timeout:
         raise
+      except RecursionError:
+        # (the innermost frame of a recursion error is wherever the limit happened to be reached: the bucket names the stage only)
+        res.fail("%sdownstream:snapshot:crash:RecursionError" % prefix, "maximum recursion depth exceeded")
       except Exception as e:  # pylint: disable=broad-except
         bucket, harness = crash_bucket(e)
         if harness:
